@@ -5,6 +5,8 @@ cd "$(dirname "$0")"
 export CARGO_NET_OFFLINE=true
 python3 tools/vendor.py
 python3 tools/gen.py
+python3 tools/gen_ast.py >/dev/null
+python3 tools/gen_asserts.py
 cp -f /repo/Cargo.lock harness/Cargo.lock 2>/dev/null || true
 (cd lean && lake build Swiftness drv)
 python3 tools/build_all.py
